@@ -277,14 +277,20 @@ func c11Round(c C11Case, w *world.World, stage string) (vs []*ev.Violation, summ
 		// the same unsigned request travelling in other ways: through the redirect binding, and as a form whose action URL
 		// repeats the message in its query - however a request is classified, what is advertised as required is required
 		if advTrue {
-			for i, via := range []string{"redirect", "post+query", "post+query-deflated"} {
-				b := spsim.NewAuthnReq(fmt.Sprintf("_c11-sso-%d", i), c.Spec.SPs[0].EntityID)
+			for i, via := range []string{"redirect", "post+query", "post+query-deflated", "post from a provider that registered no certificate", "redirect from a provider that registered no certificate"} {
+				from := c.Spec.SPs[0].EntityID
+				if strings.Contains(via, "no certificate") {
+					from = c.Spec.SPs[2].EntityID
+				}
+				b := spsim.NewAuthnReq(fmt.Sprintf("_c11-sso-%d", i), from)
 				b.IssueInstant = spsim.Instant(now, 0)
 				b.Destination = locs["sso"][0]
 				var hr2 obs.HTTPReq
 				switch via {
-				case "redirect":
+				case "redirect", "redirect from a provider that registered no certificate":
 					hr2, _, _ = spsim.Encode(routes["sso"], wr(b.Tree(plainStyle)), spsim.Transport{Binding: "redirect", Plus: true, Encoding: A, RelayState: "rs"}, nil)
+				case "post from a provider that registered no certificate":
+					hr2, _, _ = spsim.Encode(routes["sso"], wr(b.Tree(plainStyle)), spsim.Transport{Binding: "post", Plus: true, Encoding: A, RelayState: "rs"}, nil)
 				case "post+query":
 					hr2, _, _ = spsim.Encode(routes["sso"], wr(b.Tree(plainStyle)), spsim.Transport{Binding: "post", Plus: true, Encoding: A, RelayState: "rs"}, nil)
 					hr2.RawQuery = hr2.Body
